@@ -1,0 +1,88 @@
+//go:build verif
+
+package jsonapi
+
+// Contracts for types, attributes and the attribute-kind tables (C14, C17).
+
+//@ spec validKind(t int) = AttrTypeString <= t && t <= AttrTypeBytes
+//@ spec kindName(t int) = ite(t == AttrTypeString, "string", ite(t == AttrTypeInt, "int", ite(t == AttrTypeInt8, "int8", ite(t == AttrTypeInt16, "int16",
+//@   | ite(t == AttrTypeInt32, "int32", ite(t == AttrTypeInt64, "int64", ite(t == AttrTypeUint, "uint", ite(t == AttrTypeUint8, "uint8",
+//@   | ite(t == AttrTypeUint16, "uint16", ite(t == AttrTypeUint32, "uint32", ite(t == AttrTypeUint64, "uint64", ite(t == AttrTypeBool, "bool",
+//@   | ite(t == AttrTypeTime, "time", ite(t == AttrTypeBytes, "bytes", ""))))))))))))))
+
+//@ func GetAttrTypeString
+//@ props C14 C17 C06
+//@ flag pure
+//@ ensures name: validKind(t) ==> result == ite(nullable, "*" + kindName(t), kindName(t))
+//@ ensures invalid: !validKind(t) ==> result == ""
+//@ ensures nonempty: validKind(t) ==> result != ""
+
+//@ func GetAttrType
+//@ props C14 C17
+//@ flag pure
+//@ ensures valid-or-zero: validKind(result0) || (result0 == AttrTypeInvalid && !result1)
+//@ ensures inverse: forall k int, n bool :: validKind(k) && t == ite(n, "*" + kindName(k), kindName(k)) ==> result0 == k && result1 == n
+
+// ---- representation invariant of a type ----
+
+//@ spec attrsWf(m map[string]Attr) = forall k string :: k in m ==> m[k].Name == k && k != "" && validKind(m[k].Type)
+//@ spec relsWf(m map[string]Rel) = forall k string :: k in m ==> m[k].FromName == k && k != "" && m[k].ToType != ""
+//@ spec typeWf(t Type) = t.Name != "" && attrsWf(t.Attrs) && relsWf(t.Rels)
+
+//@ func Type.AddAttr
+//@ props C14 C19
+//@ requires nonnil: t != nil
+//@ requires wf: attrsWf(t.Attrs)
+//@ modifies obj[Type](t), map[map[string]Attr](t.Attrs), new[map[string]Attr]
+//@ ensures accept: (result == nil) == (attr.Name != "" && validKind(attr.Type) && !(attr.Name in old(mapdom(t.Attrs))))
+//@ ensures unchanged-on-error: result != nil ==> *t == old(*t) && sameMap(t.Attrs)
+//@ ensures added: result == nil ==> attr.Name in t.Attrs && t.Attrs[attr.Name] == attr
+//@ ensures others: result == nil ==> (forall k string :: k != attr.Name ==> (k in t.Attrs) == (k in old(mapdom(t.Attrs))) && (k in t.Attrs ==> t.Attrs[k] == old(mapval(t.Attrs))[k]))
+//@ ensures rest: t.Name == old(t.Name) && t.Rels == old(t.Rels) && t.NewFunc == old(t.NewFunc)
+//@ ensures same-map: old(t.Attrs) != nil ==> t.Attrs == old(t.Attrs)
+//@ ensures fresh-map: old(t.Attrs) == nil && result == nil ==> fresh(t.Attrs) && t.Attrs != nil
+//@ ensures wf: attrsWf(t.Attrs)
+//@ loop 0 invariant none-so-far: forall k string :: visited(k) ==> t.Attrs[k].Name != attr.Name
+
+//@ func Type.RemoveAttr
+//@ props C14
+//@ requires nonnil: t != nil
+//@ requires wf: attrsWf(t.Attrs)
+//@ modifies map[map[string]Attr](t.Attrs)
+//@ ensures removed: !(attr in t.Attrs)
+//@ ensures others: forall k string :: k != attr ==> (k in t.Attrs) == (k in old(mapdom(t.Attrs))) && (k in t.Attrs ==> t.Attrs[k] == old(mapval(t.Attrs))[k])
+//@ ensures wf: attrsWf(t.Attrs)
+//@ loop 0 invariant only-attr: forall k string :: k != attr ==> (k in t.Attrs) == (k in pre(mapdom(t.Attrs))) && t.Attrs[k] == pre(mapval(t.Attrs))[k]
+//@ loop 0 invariant gone-if-visited: visited(attr) ==> !(attr in t.Attrs)
+//@ loop 0 invariant no-new-keys: forall k string :: k in t.Attrs ==> k in pre(mapdom(t.Attrs))
+//@ loop 0 invariant wf: attrsWf(t.Attrs)
+//@ loop 0 invariant frame: othersSame(t.Attrs)
+
+//@ func Type.AddRel
+//@ props C14 C19
+//@ requires nonnil: t != nil
+//@ requires wf: relsWf(t.Rels)
+//@ modifies obj[Type](t), map[map[string]Rel](t.Rels), new[map[string]Rel]
+//@ ensures accept: (result == nil) == (rel.FromName != "" && rel.ToType != "" && !(rel.FromName in old(mapdom(t.Rels))))
+//@ ensures unchanged-on-error: result != nil ==> *t == old(*t) && sameMap(t.Rels)
+//@ ensures added: result == nil ==> rel.FromName in t.Rels && t.Rels[rel.FromName] == rel
+//@ ensures others: result == nil ==> (forall k string :: k != rel.FromName ==> (k in t.Rels) == (k in old(mapdom(t.Rels))) && (k in t.Rels ==> t.Rels[k] == old(mapval(t.Rels))[k]))
+//@ ensures rest: t.Name == old(t.Name) && t.Attrs == old(t.Attrs) && t.NewFunc == old(t.NewFunc)
+//@ ensures same-map: old(t.Rels) != nil ==> t.Rels == old(t.Rels)
+//@ ensures fresh-map: old(t.Rels) == nil && result == nil ==> fresh(t.Rels) && t.Rels != nil
+//@ ensures wf: relsWf(t.Rels)
+//@ loop 0 invariant none-so-far: forall k string :: visited(k) ==> t.Rels[k].FromName != rel.FromName
+
+//@ func Type.RemoveRel
+//@ props C14
+//@ requires nonnil: t != nil
+//@ requires wf: relsWf(t.Rels)
+//@ modifies map[map[string]Rel](t.Rels)
+//@ ensures removed: !(rel in t.Rels)
+//@ ensures others: forall k string :: k != rel ==> (k in t.Rels) == (k in old(mapdom(t.Rels))) && (k in t.Rels ==> t.Rels[k] == old(mapval(t.Rels))[k])
+//@ ensures wf: relsWf(t.Rels)
+//@ loop 0 invariant only-rel: forall k string :: k != rel ==> (k in t.Rels) == (k in pre(mapdom(t.Rels))) && t.Rels[k] == pre(mapval(t.Rels))[k]
+//@ loop 0 invariant gone-if-visited: visited(rel) ==> !(rel in t.Rels)
+//@ loop 0 invariant no-new-keys: forall k string :: k in t.Rels ==> k in pre(mapdom(t.Rels))
+//@ loop 0 invariant wf: relsWf(t.Rels)
+//@ loop 0 invariant frame: othersSame(t.Rels)
